@@ -23,9 +23,11 @@ structure Attribute where
   deriving DecidableEq, Repr, Inhabited
 structure SignedAttributes where
   ExtendedAttributes : List Attribute
+  SigningScheme : String := ""
   deriving DecidableEq, Repr, Inhabited
 structure SignerInfo where
   SignedAttributes : SignedAttributes
+  CertificateChain : List x509.Certificate := []
   deriving DecidableEq, Repr, Inhabited
 /-- `SignerInfo.ExtendedAttribute(key)`: the first extended attribute with that (string) key, else an error -/
 def SignerInfo.ExtendedAttribute (si : SignerInfo) (key : String) : Attribute × Option GoLite.Err :=
